@@ -38,6 +38,7 @@ Verdict run(const Ctx & x, const Case & c)
         }
         Words got = st->at(xc);
         Words got2 = st->at_variadic(xc);
+        digest(x.inst, got.data(), got.size() * 8);
         bool acted = ev.tr.clamped || ev.tr.defaulted || ev.tr.permuted || ev.tr.cast_changed || top.N != top.M || ev.tr.interpolated || ev.tr.affine_moved || ev.tr.nn_rounded;
         if (ev.tr.clamped) label("coordinate actually clamped");
         if (ev.tr.defaulted) label("default actually returned");
